@@ -152,6 +152,13 @@ class ParserModel:
             rule = pat["variant"]
             if b.k == "if" and _is_err(b.a[1]):
                 c = b.a[0]
+                # a local helper as the condition: look at what it computes
+                for _ in range(3):
+                    if c.k == "call" and c.a[0] in self.prog.bodies and self.prog.items[c.a[0]]["kind"] in ("Fn", "AssocFn") \
+                            and self.char_pred_set(Tm("fnitem", (c.a[0],))) is None:
+                        c = self.ev.apply(Tm("fnitem", (c.a[0],)), list(c.a[1:]))
+                    else:
+                        break
                 ne = _ne(c)
                 if ne:
                     a, bb = ne
@@ -171,6 +178,16 @@ class ParserModel:
                     cs = self.char_pred_set(Tm("fnitem", (c.a[0],)))
                     if cs is not None:
                         out[rule] = {"kind": "no-space-at", "index": int(nth[0].a[2].a[1]), "charset": cs if cs == "unicode" else ("set", cs)}
+                if rule not in out and nth and nth[0].a[2].k == "lit":
+                    # nth(i).map(pred) / is_some_and(pred) / and_then ... with a character predicate
+                    for x in subterms(c):
+                        if x.k == "call" and x.a[0].startswith("core::option::Option::<T>::") and len(x.a) == 3 and x.a[2].k in ("fnitem", "closure") \
+                                and any(y is nth[0] or y == nth[0] for y in subterms(x.a[1])):
+                            cs = self.char_pred_set(x.a[2])
+                            if cs is not None:
+                                out[rule] = {"kind": "no-space-at", "index": int(nth[0].a[2].a[1]), "charset": cs if cs == "unicode" else ("set", cs)}
+                if rule not in out:
+                    out[rule] = {"kind": "unknown", "cond": str(c)[:200]}
         for r in ("child_segment", "descendant_segment"):
             if r not in out:
                 self.notes.append("no blank-space check found for Rule::%s in fn segment" % r)
